@@ -526,7 +526,15 @@ fn one_case_glue(rep: &mut Report, drv: &mut Driver, src: &str, ret: Ret, origin
         let b1 = match call_once(&mut pkg, ret, i) {
             Ok(b) => b,
             Err(e) => {
-                rep.mismatch("main has an unexpected signature", json!({"script": src, "error": e}));
+                // A generated script may leave a type undetermined (`[].get(0)` whose element is
+                // never used): the signature gate then refuses `main`. Whether that refusal is
+                // right is property C04's business; the script cannot be run, so it is skipped
+                // (visible in the `compile` histogram).
+                if origin.starts_with("gen:") {
+                    rep.hist("compile", "main-not-obtainable-skipped");
+                } else {
+                    rep.mismatch("main has an unexpected signature", json!({"script": src, "error": e}));
+                }
                 return;
             }
         };
